@@ -365,6 +365,37 @@ fn main() {
             }
             println!("generated {} jobs in {} ({} panicked)", n, out, failed.lock().unwrap().len());
         }
+        Some("zorro-consts") => {
+            // values of the declared constants as exported by the compiled crate
+            use ark_bulletproofs::curve::zorro::{Fq, Fr, Parameters};
+            use ark_ec::{short_weierstrass::SWCurveConfig, CurveConfig};
+            use ark_ff::PrimeField;
+            let dec = |x: Fq| -> String { let b: num_bigint::BigUint = x.into_bigint().into(); b.to_string() };
+            let g = <Parameters as SWCurveConfig>::GENERATOR;
+            let cof: Vec<u64> = <Parameters as CurveConfig>::COFACTOR.to_vec();
+            let cof_inv: num_bigint::BigUint = <Parameters as CurveConfig>::COFACTOR_INV.into_bigint().into();
+            let p: num_bigint::BigUint = Fq::MODULUS.into();
+            let r: num_bigint::BigUint = Fr::MODULUS.into();
+            println!("{}", serde_json::json!({"p": p.to_string(), "r": r.to_string(), "a": dec(<Parameters as SWCurveConfig>::COEFF_A), "b": dec(<Parameters as SWCurveConfig>::COEFF_B), "gx": dec(g.x), "gy": dec(g.y), "cofactor": cof, "cofactor_inv": cof_inv.to_string()}));
+        }
+        Some("zorro-mul-by-a") => {
+            // native evaluation of the specialised routine against multiplication by the declared coefficient
+            use ark_bulletproofs::curve::zorro::{Fq, Parameters};
+            use ark_ec::short_weierstrass::SWCurveConfig;
+            use ark_ff::PrimeField;
+            use core::str::FromStr;
+            let mut wrong = false;
+            for a in args.iter().skip(2) {
+                let x = Fq::from(num_bigint::BigUint::from_str(a).unwrap());
+                let lhs = <Parameters as SWCurveConfig>::mul_by_a(x);
+                let rhs = <Parameters as SWCurveConfig>::COEFF_A * x;
+                let (l, r): (num_bigint::BigUint, num_bigint::BigUint) = (lhs.into_bigint().into(), rhs.into_bigint().into());
+                println!("x={} mul_by_a(x)={} COEFF_A*x={} {}", a, l, r, if lhs == rhs { "equal" } else { "DIFFERENT" });
+                wrong |= lhs != rhs;
+            }
+            println!("REPLAY {}", if wrong { "REPRODUCED" } else { "NOT-REPRODUCED" });
+            std::process::exit(if wrong { 1 } else { 0 });
+        }
         Some("replay") => {
             let file = args.get(2).expect("replay file");
             let v: serde_json::Value = serde_json::from_str(&std::fs::read_to_string(file).unwrap()).unwrap();
